@@ -8,6 +8,7 @@ from props import rec_common as rc
 from props import c17_s3
 
 ID = "C17"
+LOG_LEVEL_INVARIANT = True      # (harness/vp.py: a sample of the cases again with logging at DEBUG; same observables)
 RUN_MODULE = "RunC17"
 DRIVER = "recorder_driver.py"
 SHARD = 80
@@ -263,6 +264,12 @@ def direct(case, obs):
                               (seed_value(case), name, len(k), len(want), k[0] if k else -1)))
                 break
     return fails
+
+
+def log_invariant_view(case, obs):
+    """recorder histories and scripted S3 decisions are deterministic; the multi-cassette S3 histories carry sizes and draws
+    of real generators that vary from run to run"""
+    return obs if case.get("kind") in ("history", "s3") else None
 
 
 def features(case):
